@@ -47,17 +47,20 @@ class Config:
     """One build configuration of the library."""
 
     def __init__(self, backend="asm", key=4, data=2, maxs=4, check=False,
-                 extra=()):
+                 extra=(), cc=None):
         assert backend in BACKENDS
         self.backend, self.key, self.data, self.maxs = backend, key, data, maxs
         self.check = check
         self.extra = tuple(extra)  # extra -D/-U flags (analysis-only configs)
+        self.cc = cc               # None: cmake's default toolchain; "clang": configure for clang
 
     @property
     def name(self):
         n = "%s-k%dd%dm%d" % (self.backend, self.key, self.data, self.maxs)
         if self.check:
             n += "-check"
+        if self.cc:
+            n += "-" + self.cc
         if self.extra:
             n += "-" + hashlib.sha1(" ".join(self.extra).encode()).hexdigest()[:6]
         return n
@@ -68,6 +71,10 @@ class Config:
               "-DMAX_SHARES=%d" % self.maxs]
         if self.check:
             o.append("-DCHECK_ACQUIRE_RELEASE=ON")
+        if self.cc == "clang":
+            o += ["-DCMAKE_C_COMPILER=clang", "-DCMAKE_CXX_COMPILER=clang++", "-DCMAKE_ASM_COMPILER=clang"]
+        elif self.cc == "gcc":
+            o += ["-DCMAKE_C_COMPILER=gcc", "-DCMAKE_CXX_COMPILER=g++", "-DCMAKE_ASM_COMPILER=gcc"]
         return o
 
     def effective_shares(self):
